@@ -237,6 +237,8 @@ class SymbolicExpression(Generic[T], ABC):
 
     @_parent_.setter
     def _parent_(self, value: Optional[SymbolicExpression]):
+        # The parent under which an earlier evaluation reached this node says nothing about the re-built tree.
+        self._eval_parent_ = None
         self._node_.parent = value._node_ if value is not None else None
         if value is not None and hasattr(value, "_child_"):
             value._child_ = self
